@@ -317,10 +317,30 @@ def check_global_writes(ctx, rid='R20.7'):
                         continue
                     n += 1
                     ok = q == allowed_func
+                    if not ok and _idempotent_lexer_cache(ctx, f, node, t):
+                        ctx.ob(rid, f'store:{f.short}:{src(t)}', f'{f.mod.relpath}:{node.lineno}',
+                               f'store to class-level state `{src(t)}`: a complete value built from module-level constants only (the same whatever ran before), published by one '
+                               'assignment; what shares it is decided by interpreting the configuration methods with class state (R20.9)', True)
+                        continue
                     ctx.ob(rid, f'store:{f.short}:{src(t)}', f'{f.mod.relpath}:{node.lineno}',
                            f'store to class/module-level state `{src(t)}` is the lexer singleton publication under the lock', ok,
                            f'`{src(node)}` in {f.short} writes process-wide state on the request path')
     ctx.info['global_write_sites'] = n
+
+
+def _idempotent_lexer_cache(ctx, f, node, target):
+    """`cls.X = <expr>` in a method of the Lexer class, <expr> free of self/parameters (module constants and cls methods only), plain
+    assignment, and the reconfiguration simulation (which models class attributes) finds no sequence that leaves a different lexer"""
+    if f.cls is None or f.cls.qname != RL.LEXER or not isinstance(node, ast.Assign) or not isinstance(target, ast.Attribute):
+        return False
+    if not (isinstance(target.value, ast.Name) and target.value.id in ('cls', f.cls.name)):
+        return False
+    params = set(f.params) - {'cls'}
+    local = {x.id for x in ast.walk(f.node) if isinstance(x, ast.Name) and isinstance(x.ctx, ast.Store)}
+    for x in ast.walk(node.value):
+        if isinstance(x, ast.Name) and isinstance(x.ctx, ast.Load) and (x.id in params or x.id == 'self' or x.id in local):
+            return False
+    return RL.reconfiguration_result(ctx)['status'] is True
 
 
 MUTATORS = ('append', 'extend', 'insert', 'pop', 'remove', 'clear', 'update', 'setdefault', 'sort', 'reverse', 'add', 'discard',
